@@ -48,8 +48,8 @@ func HandleSegmentShardRequest(bc blockchain.Blockchain, stream *quic.Stream) er
 	}
 
 	rest := payload[CE139140MinRequestSize:]
-	if len(rest) < int(segmentIndicesLen)*SegmentIndexSize {
-		return errors.New("segment shard request truncated")
+	if len(rest) != int(segmentIndicesLen)*SegmentIndexSize {
+		return errors.New("segment shard request length does not match its index count")
 	}
 	segmentIndices := make([]uint16, segmentIndicesLen)
 	for i := uint16(0); i < segmentIndicesLen; i++ {
